@@ -1,5 +1,313 @@
-From Coq Require Import ZArith List Bool Lia.
+(* C17 -- proofs about the model of __Pyx_BufFmt_CheckString (Model/M_BufFmt.v). *)
+From Coq Require Import ZArith List Bool Lia ZifyBool Arith.
 From CyVerif Require Import Lib.CInt Model.M_BufFmt.
 Import ListNotations.
 Open Scope Z_scope.
-Lemma stub_true : True. Proof. exact I. Qed.
+
+(* ------------------------------------------------------------------ *)
+(* 1. witnesses against the code as it is (fx_none)                    *)
+(* ------------------------------------------------------------------ *)
+Definition ti_int : tinfo := mktinfo [(mkleaf 73 4 [], 0)] 4 0.
+Definition ti_id : tinfo := mktinfo [(mkleaf 73 4 [], 0); (mkleaf 82 8 [], 8)] 16 0.
+
+(* "i:abc" : the name-skipping loop walks over the NUL *)
+Lemma name_oob_witness : check fx_none [105; 58; 97; 98; 99] ti_int 4 = OOB.
+Proof. vm_compute. reflexivity. Qed.
+Lemma name_fixed_witness : check fx_all [105; 58; 97; 98; 99] ti_int 4 = Err.
+Proof. vm_compute. reflexivity. Qed.
+
+(* "idi" and numpy's "T{i:a:=d:b:}" on an int view: ctx->head == NULL is dereferenced *)
+Lemma null_witness : check fx_none [105; 100; 105] ti_int 4 = NullDeref.
+Proof. vm_compute. reflexivity. Qed.
+Lemma null_witness_numpy :
+  check fx_none [84; 123; 105; 58; 97; 58; 61; 100; 58; 98; 58; 125] ti_int 4 = NullDeref.
+Proof. vm_compute. reflexivity. Qed.
+Lemma null_witness_array : check fx_none [105; 40; 50; 41; 105] ti_int 4 = NullDeref.
+Proof. vm_compute. reflexivity. Qed.
+Lemma null_fixed_witness : check fx_all [105; 100; 105] ti_int 4 = Err
+  /\ check fx_all [84; 123; 105; 58; 97; 58; 61; 100; 58; 98; 58; 125] ti_int 4 = Err
+  /\ check fx_all [105; 40; 50; 41; 105] ti_int 4 = Err.
+Proof. vm_compute. auto. Qed.
+
+(* "( 2)i" : the whitespace `continue` never advances: no amount of fuel suffices *)
+Lemma parr_ws_loops : forall fuel arr r i, parr_loop fx_none fuel arr (32 :: r) i = OutOfFuel.
+Proof. induction fuel as [|f IH]; intros; [reflexivity|]. cbn. apply IH. Qed.
+
+Lemma hang_witness : forall fuel, check_fuel fx_none fuel [40; 32; 50; 41; 105] ti_int 4 = OutOfFuel.
+Proof.
+  intros [|f]; [reflexivity|].
+  unfold check_fuel. cbn. rewrite parr_ws_loops. reflexivity.
+Qed.
+Lemma hang_fixed_witness : check fx_all [40; 32; 50; 41; 105] ti_int 4 = Err.
+Proof. vm_compute. reflexivity. Qed.
+
+(* ------------------------------------------------------------------ *)
+(* 2. repeat counts in a C int                                         *)
+(* ------------------------------------------------------------------ *)
+Definition digits (ds : list Z) : Prop := Forall (fun d => is_digit d = true) ds.
+Definition no_digit_head (r : list Z) : Prop :=
+  match r with [] => True | d :: _ => is_digit d = false end.
+
+Lemma dval_ge : forall ds a, 0 <= a -> digits ds -> a <= dval a ds.
+Proof.
+  induction ds as [|d ds IH]; intros a Ha Hd; cbn; [lia|].
+  inversion Hd as [|? ? Hd1 Hd2]; subst. unfold is_digit in Hd1.
+  specialize (IH (a * 10 + (d - 48)) ltac:(lia) Hd2). unfold dval in IH. lia.
+Qed.
+
+Lemma pn_loop_ok : forall ds acc rest,
+  0 <= acc -> digits ds -> no_digit_head rest -> dval acc ds <= INT_MAX ->
+  pn_loop acc (ds ++ rest) = Ok (dval acc ds, rest).
+Proof.
+  induction ds as [|d ds IH]; intros acc rest Ha Hd Hr Hv.
+  - cbn. destruct rest as [|x r]; [reflexivity|]. cbn in Hr. cbn. rewrite Hr. reflexivity.
+  - change (dval acc (d :: ds)) with (dval (acc * 10 + (d - 48)) ds) in *.
+    cbn [app pn_loop].
+    inversion Hd as [|? ? Hd1 Hd2]; subst. rewrite Hd1.
+    assert (Hacc : 0 <= acc * 10 + (d - 48)) by (unfold is_digit in Hd1; lia).
+    pose proof (dval_ge ds _ Hacc Hd2) as Hge.
+    destruct (Z.ltb_spec INT_MAX (acc * 10 + (d - 48))); [lia|].
+    apply IH; auto.
+Qed.
+
+Lemma pn_loop_ovf : forall ds acc rest,
+  0 <= acc <= INT_MAX -> digits ds -> INT_MAX < dval acc ds -> pn_loop acc (ds ++ rest) = IntOvf.
+Proof.
+  induction ds as [|d ds IH]; intros acc rest Ha Hd Hv.
+  - cbn in Hv. lia.
+  - change (dval acc (d :: ds)) with (dval (acc * 10 + (d - 48)) ds) in *.
+    cbn [app pn_loop].
+    inversion Hd as [|? ? Hd1 Hd2]; subst. rewrite Hd1.
+    destruct (Z.ltb_spec INT_MAX (acc * 10 + (d - 48))); [reflexivity|].
+    apply IH; auto. unfold is_digit in Hd1. lia.
+Qed.
+
+(* the count parsed by __Pyx_BufFmt_ParseNumber is the decimal value iff it fits a C int;
+   otherwise the accumulation overflows (undefined behaviour) *)
+Theorem count_no_overflow : forall d ds rest,
+  digits (d :: ds) -> no_digit_head rest ->
+  (dval 0 (d :: ds) <= INT_MAX -> parse_number (d :: ds ++ rest) = Ok (Some (dval 0 (d :: ds), rest))) /\
+  (INT_MAX < dval 0 (d :: ds) -> parse_number (d :: ds ++ rest) = IntOvf).
+Proof.
+  intros d ds rest Hd Hr. inversion Hd as [|? ? Hd1 Hd2]; subst.
+  assert (H0 : 0 <= d - 48) by (unfold is_digit in Hd1; lia).
+  cbn [parse_number]. rewrite Hd1. cbn [dval fold_left]. replace (0 * 10 + (d - 48)) with (d - 48) by lia.
+  fold (dval (d - 48) ds). split; intros Hv.
+  - rewrite pn_loop_ok; auto.
+  - rewrite pn_loop_ovf; auto. unfold is_digit, INT_MAX in *. lia.
+Qed.
+
+Lemma count_overflow_witness :
+  check fx_all [50; 49; 52; 55; 52; 56; 51; 54; 52; 56; 105] ti_int 4 = IntOvf.   (* 2147483648i *)
+Proof. vm_compute. reflexivity. Qed.
+
+(* ------------------------------------------------------------------ *)
+(* 3. the repaired parser terminates and stays inside the string       *)
+(* ------------------------------------------------------------------ *)
+Definition safe {A} (r : res A) : Prop :=
+  match r with OOB | NullDeref | OutOfFuel => False | _ => True end.
+(* safe, and an Ok result carries a remaining string no longer than [bound] *)
+Definition good {A} (len : A -> nat) (bound : nat) (r : res A) : Prop :=
+  match r with Ok a => (len a <= bound)%nat | Err | IntOvf => True | _ => False end.
+
+Lemma good_mono {A} (len : A -> nat) b1 b2 r : (b1 <= b2)%nat -> good len b1 r -> good len b2 r.
+Proof. destruct r; cbn; auto. lia. Qed.
+
+Lemma good_bind {A B} (r : res A) (f : A -> res B) len b :
+  safe r -> (forall a, r = Ok a -> good len b (f a)) -> good len b (bind r f).
+Proof. destruct r; cbn; auto; contradiction. Qed.
+
+Lemma good_bind2 {A B} (r : res A) (f : A -> res B) lenA len b1 b :
+  good lenA b1 r -> (forall a, (lenA a <= b1)%nat -> good len b (f a)) -> good len b (bind r f).
+Proof. destruct r; cbn; auto. Qed.
+
+Lemma chunk_loop_safe : forall et z pm g arrsz h o cnt sal,
+  h <> [] -> safe (chunk_loop et z pm g arrsz h o cnt sal).
+Proof.
+  induction h as [|[l fo] rest IH]; intros o cnt sal Hne; [congruence|].
+  cbn [chunk_loop].
+  destruct ((pm =? 64) && (alignment et =? 0)); [exact I|].
+  destruct (negb (leaf_ok l _ g)); [exact I|].
+  destruct (negb (_ =? fo)); [exact I|].
+  destruct rest as [|f rest'].
+  - destruct (_ =? 0); exact I.
+  - destruct (_ =? 0); [exact I|]. apply IH. congruence.
+Qed.
+
+Lemma process_chunk_safe : forall c, safe (process_chunk fx_all c).
+Proof.
+  intros c. unfold process_chunk.
+  destruct (etype c =? 0); [exact I|].
+  destruct (hd c) as [|[l fo] rest] eqn:Hh; [exact I|].
+  destruct (nth 0 (l_arr l) 0 =? 0).
+  - cbn [bind]. pose proof (chunk_loop_safe (etype c) (cplx c) (epm c) (type_group (etype c) (cplx c)) 1
+      ((l, fo) :: rest) (off c) (ecnt c) (salign c) ltac:(congruence)) as Hs.
+    destruct (chunk_loop _ _ _ _ _ _ _ _ _) as [[[[h o] cn] sa]| | | | |]; cbn in *; auto.
+  - destruct (_ && negb (ecnt c =? _)); [exact I|].
+    destruct (negb _); [exact I|]. cbn [bind].
+    match goal with |- context [chunk_loop ?a ?b ?c0 ?d ?e ?f ?g ?h ?i] =>
+      pose proof (chunk_loop_safe a b c0 d e f g h i ltac:(congruence)) as Hs;
+      destruct (chunk_loop a b c0 d e f g h i) as [[[[h' o'] cn] sa]| | | | |] end; cbn in *; auto.
+Qed.
+
+Lemma pn_loop_good : forall ts acc, good (fun p : Z * list Z => length (snd p)) (length ts) (pn_loop acc ts).
+Proof.
+  induction ts as [|d r IH]; intros acc; cbn; [lia|].
+  destruct (is_digit d); [|cbn; lia].
+  destruct (INT_MAX <? _); [exact I|].
+  eapply good_mono; [|apply IH]. lia.
+Qed.
+
+(* a number consumes at least one character *)
+Lemma expect_number_good : forall ts,
+  good (fun p : Z * list Z => S (length (snd p))) (length ts) (expect_number ts).
+Proof.
+  intros [|d r]; [exact I|]. unfold expect_number, parse_number.
+  destruct (is_digit d); [|exact I].
+  pose proof (pn_loop_good r (d - 48)) as H.
+  destruct (pn_loop (d - 48) r) as [[n r']| | | | |]; cbn in *; auto. lia.
+Qed.
+
+Lemma skip_name_good : forall ts, good (fun r : list Z => S (length r)) (length ts) (skip_name fx_all ts).
+Proof.
+  induction ts as [|ch r IH]; [exact I|]. cbn [skip_name].
+  destruct (ch =? 58); [cbn; lia|]. eapply good_mono; [|apply IH]. cbn. lia.
+Qed.
+
+Lemma parr_loop_good : forall fuel arr ts i, (length ts < fuel)%nat ->
+  good (fun p : list Z * nat => length (fst p)) (length ts) (parr_loop fx_all fuel arr ts i).
+Proof.
+  induction fuel as [|f IH]; intros arr ts i Hf; [lia|].
+  destruct ts as [|ch r]; [cbn; lia|]. cbn [parr_loop].
+  destruct (ch =? 41); [cbn; lia|].
+  destruct (is_arr_space ch).
+  - cbn [fx_arrws fx_all]. eapply good_mono; [|apply IH]; cbn in *; lia.
+  - pose proof (expect_number_good (ch :: r)) as Hn.
+    destruct (expect_number (ch :: r)) as [[n ts1]| | | | |]; cbn [bind good] in *; auto.
+    destruct (_ && _); [exact I|].
+    destruct ts1 as [|c1 r1]; [exact I|].
+    cbn [length snd] in Hn.
+    destruct (Z.eq_dec c1 44) as [->|N1].
+    + eapply good_mono; [|apply IH]; cbn in *; lia.
+    + destruct (Z.eq_dec c1 41) as [->|N2].
+      * eapply good_mono; [|apply IH]; cbn in *; lia.
+      * destruct c1 as [|p|p]; try exact I.
+        repeat (destruct p as [p|p|]; try exact I); congruence.
+Qed.
+
+Lemma parse_array_good : forall fuel ts c, (length ts < fuel)%nat ->
+  good (fun p : list Z * ctx => S (length (fst p))) (length ts) (parse_array fx_all fuel ts c).
+Proof.
+  intros fuel ts c Hf. unfold parse_array.
+  destruct (negb (ncnt c =? 1)); [exact I|].
+  apply good_bind; [apply process_chunk_safe|]. intros c1 _.
+  destruct (hd c1) as [|[l fo] rest]; [exact I|].
+  eapply good_bind2; [apply parr_loop_good; exact Hf|].
+  intros [ts1 i] Hl. cbn [fst] in Hl.
+  destruct (negb _); [exact I|].
+  destruct ts1 as [|x r]; [exact I|]. cbn in *. lia.
+Qed.
+
+Lemma iter_pos_good {A} (len : A -> nat) b (f : A -> res A) :
+  (forall a, good len b (f a)) -> forall p a, good len b (iter_pos p f a).
+Proof.
+  intros Hf. induction p as [p IH|p IH|]; intros a; cbn [iter_pos].
+  - eapply good_bind2; [apply Hf|]. intros a1 _. eapply good_bind2; [apply IH|]. intros a2 _. apply IH.
+  - eapply good_bind2; [apply IH|]. intros a1 _. apply IH.
+  - apply Hf.
+Qed.
+
+Lemma type_char_safe : forall ch gz pool c, safe (type_char fx_all ch gz pool c).
+Proof.
+  intros. unfold type_char. destruct (_ && _); [exact I|].
+  pose proof (process_chunk_safe c) as H. destruct (process_chunk fx_all c); cbn in *; auto.
+Qed.
+
+Definition lenp (p : list Z * ctx) : nat := length (fst p).
+
+Lemma check_string_good : forall fuel ts c, (length ts < fuel)%nat ->
+  good lenp (length ts) (check_string fx_all fuel ts c).
+Proof.
+  induction fuel as [|f IH]; intros ts c Hf; [lia|].
+  destruct ts as [|ch r].
+  - cbn [check_string]. destruct (_ && _); [exact I|].
+    apply good_bind; [apply process_chunk_safe|]. intros c1 _.
+    destruct (hd c1); [cbn; lia|exact I].
+  - cbn [length] in Hf.
+    assert (Hr : forall c', good lenp (length (ch :: r)) (check_string fx_all f r c')).
+    { intros c'. eapply good_mono; [|apply IH; lia]. cbn. lia. }
+    cbn [check_string].
+    destruct (in_list ch [32; 13; 10]); [apply Hr|].
+    destruct (ch =? 60); [apply Hr|].
+    destruct (in_list ch [62; 33]); [exact I|].
+    destruct (in_list ch [61; 64; 94]); [apply Hr|].
+    destruct (ch =? 84).
+    { destruct r as [|c2 r2]; [exact I|].
+      destruct (Z.eq_dec c2 123) as [->|N].
+      - apply good_bind; [apply process_chunk_safe|]. intros c1 _.
+        cbn [length] in Hf.
+        eapply good_bind2 with (lenA := lenp) (b1 := length r2).
+        + unfold iter_z. destruct (ncnt c) as [|p|p]; try (cbn; unfold lenp; cbn; lia).
+          apply iter_pos_good. intros st. apply IH. lia.
+        + intros [ts1 c3] Hl. unfold lenp in Hl. cbn [fst] in Hl.
+          eapply good_mono; [|apply IH; lia]. cbn. lia.
+      - destruct c2 as [|p|p]; try exact I.
+        repeat (destruct p as [p|p|]; try exact I); congruence. }
+    destruct (ch =? 125).
+    { apply good_bind; [apply process_chunk_safe|]. intros c1 _. cbn. unfold lenp. cbn. lia. }
+    destruct (ch =? 120).
+    { apply good_bind; [apply process_chunk_safe|]. intros c1 _. apply Hr. }
+    destruct (ch =? 90).
+    { destruct r as [|c2 r2]; [exact I|]. destruct (in_list c2 [102; 100; 103]); [|exact I].
+      apply good_bind; [apply type_char_safe|]. intros c1 _.
+      eapply good_mono; [|apply IH; cbn in *; lia]. cbn. lia. }
+    destruct (in_list ch type_chars).
+    { apply good_bind; [apply type_char_safe|]. intros c1 _. apply Hr. }
+    destruct (ch =? 115).
+    { apply good_bind; [apply type_char_safe|]. intros c1 _. apply Hr. }
+    destruct (ch =? 58).
+    { eapply good_bind2; [apply skip_name_good|]. intros r1 Hl. cbn beta in Hl.
+      eapply good_mono; [|apply IH; lia]. cbn. lia. }
+    destruct (ch =? 40).
+    { eapply good_bind2; [apply parse_array_good; lia|]. intros [r1 c1] Hl. cbn [fst] in Hl.
+      eapply good_mono; [|apply IH; lia]. cbn. lia. }
+    eapply good_bind2; [apply expect_number_good|]. intros [n r1] Hl. cbn [snd length] in Hl.
+    eapply good_mono; [|apply IH; lia]. cbn. lia.
+Qed.
+
+Lemma cstr_length : forall s, (length (cstr s) <= length s)%nat.
+Proof. induction s as [|ch r IH]; cbn; [lia|]. destruct (ch =? 0); cbn; lia. Qed.
+
+(* for ALL byte strings and all flat type infos the repaired parser returns: it accepts, raises
+   ValueError, or hits the (separately stated) C int overflow of a repeat count >= 2^31 --
+   never reads past the NUL, never dereferences NULL, never loops *)
+Theorem repaired_parser_terminates_in_bounds : forall s ti isz,
+  check fx_all s ti isz = Ok tt \/ check fx_all s ti isz = Err \/ check fx_all s ti isz = IntOvf.
+Proof.
+  intros s ti isz. unfold check, check_fuel.
+  pose proof (check_string_good (S (length s)) (cstr s) (init ti)
+                ltac:(pose proof (cstr_length s); lia)) as H.
+  destruct (check_string fx_all (S (length s)) (cstr s) (init ti)) as [[ts c]| | | | |];
+    cbn in *; try contradiction; auto.
+  destruct (isz =? ti_size ti); auto.
+Qed.
+
+(* ------------------------------------------------------------------ *)
+(* 4. accept <-> struct-module layout equality: the one-item corner     *)
+(* ------------------------------------------------------------------ *)
+(* C types: a C char has size 1, floating/complex types have size >= 4 *)
+Definition scalar_ti (g sz : Z) : tinfo := mktinfo [(mkleaf g sz [], 0)] sz 0.
+
+Theorem accept_iff_layout_single_item_partial : forall fx t g sz isz,
+  In g [72; 73; 85; 82; 67] -> In sz [1; 2; 4; 8; 16; 32] -> (g = 82 \/ g = 67 -> 4 <= sz) -> (g = 72 -> sz = 1) ->
+  check fx (render (FPlain [TItem [] t])) (scalar_ti g sz) isz = Ok tt <->
+  spec_accept (FPlain [TItem [] t]) (scalar_ti g sz) isz = true.
+Proof.
+  intros fx t g sz isz Hg Hs Hw Hc.
+  unfold check, check_fuel, spec_accept, scalar_ti. cbn [ti_size].
+  generalize (isz =? sz) as b. intros b.
+  cbn [In] in Hg, Hs.
+  destruct Hg as [<-|[<-|[<-|[<-|[<-|[]]]]]]; destruct Hs as [<-|[<-|[<-|[<-|[<-|[<-|[]]]]]]];
+    try (exfalso; lia); clear Hw Hc;
+    destruct t; destruct b; vm_compute; split; congruence.
+Qed.
